@@ -1,10 +1,11 @@
 #!/bin/sh
+VROOT=$(cd "$(dirname "$0")/.." && pwd)
 # wave.sh <worktree-prefix> <prop> [tier] : for every _seed/<n> in <prefix><prop>: confirm it (verify_seed.sh) and run the check against it.
 pre=$1; p=$2; tier=${3:-quick}; wt=$pre$p
 for d in $wt/_seed/[0-9]*; do
   n=$(basename $d)
   [ -f $d/patch.diff ] || continue
-  v=$(/verif/tools/verify_seed.sh $wt $n 2>&1 | tr '\n' ' ')
-  c=$(/verif/tools/try_seed.sh $p $wt $n $tier 2>&1 | grep -E '^(==|correspondence)' | tr '\n' ' ')
+  v=$($VROOT/tools/verify_seed.sh $wt $n 2>&1 | tr '\n' ' ')
+  c=$($VROOT/tools/try_seed.sh $p $wt $n $tier 2>&1 | grep -E '^(==|correspondence)' | tr '\n' ' ')
   echo "$p/$n | $c | $v"
 done
